@@ -648,11 +648,7 @@ func grammarGuarded(c *Ctx, fn *ssa.Function, pc *ssa.Call) (bool, string) {
 		if !ok {
 			continue
 		}
-		cond := iff.Cond
-		neg := false
-		if u, ok := cond.(*ssa.UnOp); ok && u.Op == token.NOT {
-			cond, neg = u.X, true
-		}
+		cond, neg := normBool(iff.Cond)
 		call, ok := cond.(*ssa.Call)
 		if !ok || call.Call.StaticCallee() == nil || call.Call.StaticCallee().Name() != "MatchString" || len(call.Call.Args) < 1 {
 			continue
